@@ -90,6 +90,28 @@ fn judge(c: &Case, p: &Probe) -> Judge {
         let d = canon_match(&expected, &got).err().unwrap_or_else(|| "structures differ (set/scalar shape)".into());
         return Err(Fail::new("C20/content", format!("after serialise/deserialise: {d}")));
     }
+    // the same document through the other public entry points of the carrier: a parsed Value
+    // (from_value announces sequence lengths, from_str does not), a byte slice and a reader
+    let val: Value = serde_json::from_str(&js).map_err(|e| Fail::new("C20/serialize-error", format!("serialiser output is not JSON: {e}")))?;
+    let via: [(&str, Result<IppRequestResponse, String>); 4] = [
+        ("from_value", catch(|| serde_json::from_value::<IppRequestResponse>(val.clone())).map_err(|e| format!("panicked: {e}")).and_then(|r| r.map_err(|e| e.to_string()))),
+        ("to_value+from_value", catch(|| serde_json::to_value(&msg).and_then(serde_json::from_value::<IppRequestResponse>)).map_err(|e| format!("panicked: {e}")).and_then(|r| r.map_err(|e| e.to_string()))),
+        ("from_slice", catch(|| serde_json::from_slice::<IppRequestResponse>(js.as_bytes())).map_err(|e| format!("panicked: {e}")).and_then(|r| r.map_err(|e| e.to_string()))),
+        ("from_reader", catch(|| serde_json::from_reader::<_, IppRequestResponse>(js.as_bytes())).map_err(|e| format!("panicked: {e}")).and_then(|r| r.map_err(|e| e.to_string()))),
+    ];
+    for (how, r) in via {
+        p.extra_eval(1);
+        match r {
+            Err(e) => return Err(Fail::new(format!("C20/deserialize-error/{how}"), format!("{how} failed on the serialiser's own output: {e}"))),
+            Ok(b) => {
+                let g = canon_of(&b, false);
+                if g != expected {
+                    let d = canon_match(&expected, &g).err().unwrap_or_else(|| "structures differ (set/scalar shape)".into());
+                    return Err(Fail::new(format!("C20/content/{how}"), format!("after serialise + {how}: {d}")));
+                }
+            }
+        }
+    }
     let js2 = serde_json::to_string(&back).map_err(|e| Fail::new("C20/serialize-error", format!("{e}")))?;
     let (v1, v2): (Value, Value) = (serde_json::from_str(&js).unwrap(), serde_json::from_str(&js2).unwrap());
     if v1 != v2 {
@@ -115,6 +137,10 @@ fn judge(c: &Case, p: &Probe) -> Judge {
             let iv = to_ipp(v);
             let jv = serde_json::to_string(&iv).map_err(|e| Fail::new("C20/serialize-error", format!("value: {e}")))?;
             let bv: IppValue = serde_json::from_str(&jv).map_err(|e| Fail::new("C20/deserialize-error", format!("value: {e}; json={}", jv.chars().take(300).collect::<String>())))?;
+            let bv2: IppValue = serde_json::to_value(&iv).and_then(serde_json::from_value).map_err(|e| Fail::new("C20/deserialize-error/from_value", format!("value: {e}; json={}", jv.chars().take(300).collect::<String>())))?;
+            if bv2 != iv {
+                return Err(Fail::new("C20/content/from_value", format!("bare value differs after to_value/from_value: {}", jv.chars().take(300).collect::<String>())));
+            }
             if bv != iv {
                 return Err(Fail::new("C20/content", format!("bare value differs after the round trip: {}", jv.chars().take(300).collect::<String>())));
             }
@@ -123,9 +149,139 @@ fn judge(c: &Case, p: &Probe) -> Judge {
     Ok(())
 }
 
+// ================================================================================================
+// C09, the part that needs the `serde` feature: messages that reached the encoder through Deserialize
+// ================================================================================================
+
+#[derive(Clone, Debug, Hash)]
+struct Loaded {
+    kind: u8,
+    op: u8,
+    uri: u8,
+    adds: Vec<(u8, String, CValue)>,
+    post: Vec<(u8, String, CValue)>,
+    attrs_only: bool,
+    via_value: bool,
+}
+
+const C09_URIS: &[&str] = &["ipp://localhost:631/printers/x", "ipps://printer.example.com/ipp/print", "http://user:pw@10.0.0.7:8631/p?q=1", "ipp://[::1]/"];
+const C09_OPS: &[Operation] = &[Operation::PrintJob, Operation::GetPrinterAttributes, Operation::CancelJob, Operation::GetJobAttributes, Operation::CupsGetPrinters, Operation::SendDocument];
+
+fn c09_name() -> BoxedStrategy<String> {
+    prop_oneof![
+        4 => proptest::sample::select(vec!["printer-uri", "job-uri", "job-id"]).prop_map(|s| s.to_string()),
+        2 => proptest::sample::select(vec!["Job-Id", "Attributes-Charset", "Printer-URI", "JOB-URI", "attributes-Natural-Language", "Printer-Uri"]).prop_map(|s| s.to_string()),
+        3 => proptest::sample::select(vec!["requesting-user-name", "job-name", "document-format", "compression", "attributes-charset", "attributes-natural-language", "a", "zzz", "copies"]).prop_map(|s| s.to_string()),
+        3 => proptest::collection::vec(prop_oneof![b'a'..=b'z', Just(b'-')], 1..10).prop_map(|v| String::from_utf8(v).unwrap()),
+    ]
+    .boxed()
+}
+
+fn loaded() -> BoxedStrategy<Loaded> {
+    let group = || prop_oneof![6 => Just(1u8), 2 => Just(2u8), 1 => Just(4u8), 1 => Just(5u8)];
+    let adds = |n: usize| proptest::collection::vec((group(), c09_name(), gen::m_value(0, false)), 0..n);
+    (0u8..3, any::<u8>(), any::<u8>(), adds(14), adds(5), any::<bool>(), any::<bool>()).prop_map(|(kind, op, uri, adds, post, attrs_only, via_value)| Loaded { kind, op, uri, adds, post, attrs_only, via_value }).boxed()
+}
+
+fn loaded_json(c: &Loaded) -> Value {
+    let l = |v: &Vec<(u8, String, CValue)>| v.iter().map(|(g, n, x)| json!({"group": g, "name": n, "v": cvalue_json(x)})).collect::<Vec<_>>();
+    json!({"serde_loaded": true, "kind": c.kind, "op": c.op, "uri": c.uri, "adds": l(&c.adds), "post": l(&c.post), "attrs_only": c.attrs_only, "via_value": c.via_value})
+}
+
+fn loaded_from_json(v: &Value) -> Option<Loaded> {
+    let l = |k: &str| -> Option<Vec<(u8, String, CValue)>> { v.get(k)?.as_array()?.iter().map(|a| Some((a.get("group")?.as_u64()? as u8, a.get("name")?.as_str()?.to_string(), cvalue_from_json(a.get("v")?)?))).collect() };
+    Some(Loaded { kind: v.get("kind")?.as_u64()? as u8, op: v.get("op")?.as_u64()? as u8, uri: v.get("uri")?.as_u64()? as u8, adds: l("adds")?, post: l("post")?, attrs_only: v.get("attrs_only")?.as_bool()?, via_value: v.get("via_value")?.as_bool()? })
+}
+
+fn judge_loaded(c: &Loaded, p: &Probe, instances: usize) -> Judge {
+    let mut nt_done = false;
+    for _ in 0..instances {
+        let uri: Uri = C09_URIS[c.uri as usize % C09_URIS.len()].parse().unwrap();
+        let mut req = match c.kind {
+            0 => IppRequestResponse::new(IppVersion::v1_1(), C09_OPS[c.op as usize % C09_OPS.len()], Some(uri)),
+            1 => IppRequestResponse::new(IppVersion::v2_0(), C09_OPS[c.op as usize % C09_OPS.len()], None),
+            _ => IppRequestResponse::new_response(IppVersion::v1_1(), StatusCode::SuccessfulOk, 1 + c.op as u32),
+        };
+        for (g, n, v) in &c.adds {
+            req.attributes_mut().add(delim(*g), IppAttribute::new(n, to_ipp(v)));
+        }
+        let before = canon_of(&req, false);
+        // store and load again
+        let fail = |sig: &str, m: String| Fail::new(format!("C09/{sig}/serde-loaded"), format!("{m}; case={}", abbreviate(&loaded_json(c))));
+        let mut back: IppRequestResponse = if c.attrs_only {
+            let a: IppAttributes = if c.via_value { serde_json::to_value(req.attributes()).and_then(serde_json::from_value) } else { serde_json::to_string(req.attributes()).and_then(|s| serde_json::from_str(&s)) }.map_err(|e| fail("load", format!("{e}")))?;
+            let mut fresh = IppRequestResponse::new_response(req.header().version, StatusCode::SuccessfulOk, 1);
+            *fresh.header_mut() = req.header().clone();
+            *fresh.attributes_mut() = a;
+            fresh
+        } else if c.via_value {
+            serde_json::to_value(&req).and_then(serde_json::from_value).map_err(|e| fail("load", format!("{e}")))?
+        } else {
+            serde_json::to_string(&req).and_then(|s| serde_json::from_str(&s)).map_err(|e| fail("load", format!("{e}")))?
+        };
+        if canon_of(&back, false) != before {
+            return Ok(()); // C20 reports that
+        }
+        for (g, n, v) in &c.post {
+            back.attributes_mut().add(delim(*g), IppAttribute::new(n, to_ipp(v)));
+        }
+        p.extra_eval(1);
+        let bytes = back.to_bytes().to_vec();
+        let info = vcore::oracles::c09_order(&bytes).map_err(|f| Fail::new(format!("{}/serde-loaded", f.sig), format!("a message that was serialised, deserialised{} and then encoded: {}; case={}", if c.post.is_empty() { "" } else { ", extended by add()" }, f.msg, abbreviate(&loaded_json(c)))))?;
+        if !nt_done {
+            nt_done = true;
+            if info.names.len() >= 5 && (info.pu || info.ju) {
+                p.nontrivial(hash64(c));
+                p.label("serde-loaded: non-trivial (>=5 operation attributes and a target)");
+                if p.want_sample() {
+                    p.sample(json!({"serde_loaded": true, "attrs_only": c.attrs_only, "via_value": c.via_value, "added_after_loading": c.post.len(), "wire_order": info.names}));
+                }
+            }
+            p.label(if c.attrs_only { "serde-loaded: bare IppAttributes" } else { "serde-loaded: whole message" });
+        }
+    }
+    Ok(())
+}
+
+fn c09_main(args: &[String]) -> i32 {
+    match args.get(2).map(|s| s.as_str()) {
+        Some("child") => {
+            let tier = if args.get(3).map(|s| s.as_str()) == Some("thorough") { Tier::Thorough } else { Tier::Quick };
+            let ctx = Ctx::new("C09", tier, "exploration");
+            let n = tier.pick(16, 32);
+            let (shards, per) = tier.pick((16, 1000), (16, 12000));
+            run_prop(&ctx, "serde-loaded", shards, per, loaded, |c, p| judge_loaded(c, p, n), loaded_json);
+            println!("RESULTS {}", ctx.export());
+            0
+        }
+        Some("--replay") => {
+            let path = &args[3];
+            let doc: Value = serde_json::from_str(&std::fs::read_to_string(path).expect("replay file")).expect("json");
+            let mut ctx = Ctx::new("C09", Tier::Quick, "exploration");
+            ctx.replay_mode = true;
+            let c = loaded_from_json(doc.get("case").unwrap_or(&Value::Null)).expect("case");
+            match judge_loaded(&c, &Probe { ctx: &ctx, counting: false }, 256) {
+                Ok(()) => {
+                    println!("replay {path}: case passes");
+                    0
+                }
+                Err(f) => {
+                    println!("--- C09: {}\n    {}", f.sig, f.msg);
+                    println!("VIOLATION property=C09 replay={path}");
+                    1
+                }
+            }
+        }
+        _ => 2,
+    }
+}
+
 fn main() {
     let args: Vec<String> = std::env::args().collect();
     install_silent_panic_hook();
+    if args.len() >= 3 && args[1] == "C09" {
+        std::process::exit(c09_main(&args));
+    }
     if args.len() < 3 || args[1] != "C20" {
         eprintln!("usage: chk-serde C20 quick|thorough|--replay <file>");
         std::process::exit(2);
@@ -134,7 +290,7 @@ fn main() {
         "quick" | "thorough" => {
             let tier = if args[2] == "quick" { Tier::Quick } else { Tier::Thorough };
             let ctx = Ctx::new("C20", tier, "exploration");
-            ctx.set_rule("proptest-generated model messages (domain of C01, utc_dir widened to any char) serialised with serde_json and deserialised (after three truncated copies of the same document have been fed to the deserialiser on the same thread, outcome not asserted): header, groups, names, values must be equal WITHOUT identifying one-element sets; re-serialising gives the same JSON document (map-order-insensitive); payload reads as empty afterwards; bare IppAttributes and every bare IppValue round-trip too. Non-trivial = contains a raw-octet (Other) value with data, a collection nested >=2, or non-ASCII text/char; distinct by hash of the model message.");
+            ctx.set_rule("proptest-generated model messages (domain of C01, utc_dir widened to any char) serialised with serde_json and deserialised (after three truncated copies of the same document have been fed to the deserialiser on the same thread, outcome not asserted; then again through from_value, to_value+from_value, from_slice and from_reader): header, groups, names, values must be equal WITHOUT identifying one-element sets; re-serialising gives the same JSON document (map-order-insensitive); payload reads as empty afterwards; bare IppAttributes and every bare IppValue round-trip too. Non-trivial = contains a raw-octet (Other) value with data, a collection nested >=2, or non-ASCII text/char; distinct by hash of the model message.");
             ctx.assume("JSON (serde_json) is the carrier format");
             let (shards, per) = tier.pick((16, 6000), (16, 100000));
             run_prop(&ctx, "serde-roundtrip", shards, per, case, judge, |c| mmsg_json(&c.m));
